@@ -35,7 +35,9 @@ from spyne.error import ValidationError
 from spyne.error import ResourceNotFoundError
 
 from spyne.model import ByteArray, File, Fault, ComplexModelBase, Array, Any, \
-    AnyDict, Uuid, Unicode
+    AnyDict, Uuid, Unicode, Integer
+
+_INF = float('inf')
 
 from spyne.protocol.dictdoc import DictDocument
 
@@ -233,6 +235,14 @@ class HierDictDocument(DictDocument):
 
                 else:
                     retval = self.from_serstr(cls, inst)
+
+                    # a number with a fractional part is not an integer; one
+                    # without (2.0) is handed over as the native int it denotes
+                    if isinstance(retval, float) and issubclass(cls, Integer):
+                        if retval != retval or retval in (_INF, -_INF) \
+                                                   or retval != int(retval):
+                            raise ValidationError([key, retval])
+                        retval = int(retval)
 
         # validate native type
         if validator is self.SOFT_VALIDATION:
